@@ -37,8 +37,10 @@ def discharge(wd, log, module="SlotAccounting", obligations=None, cinit=("--cini
     for name, args in obligations:
         t0 = time.time()
         try:
+            os.makedirs(os.path.join(d, "tmp"), exist_ok=True)      # (the wrapper makes its SANY directory under $TMPDIR)
             p = subprocess.run(["apalache-mc", "check"] + list(cinit) + args + ["--out-dir=" + os.path.join(d, "out"), module + ".tla"],
-                               cwd=d, stdout=subprocess.PIPE, stderr=subprocess.STDOUT, text=True, timeout=300)
+                               cwd=d, stdout=subprocess.PIPE, stderr=subprocess.STDOUT, text=True, timeout=300,
+                               env=dict(os.environ, TMPDIR=os.path.join(d, "tmp")))
             out = p.stdout
         except subprocess.TimeoutExpired:
             res["errors"].append(name + ": timeout")
@@ -52,6 +54,7 @@ def discharge(wd, log, module="SlotAccounting", obligations=None, cinit=("--cini
         else:
             res["errors"].append(name + ": " + out[-200:])
     shutil.rmtree(os.path.join(d, "out"), ignore_errors=True)
+    shutil.rmtree(os.path.join(d, "tmp"), ignore_errors=True)
     log("Apalache: %d of %d obligations of %s discharged (%s)%s" % (
         res["discharged"], res["obligations"], module, what, (" REFUTED: %s" % res["refuted"]) if res["refuted"] else ""))
     return res
